@@ -6,7 +6,8 @@
  *     sample j, column i shows sample j of frame ff+k of field i, fetched ONE
  *     SAMPLE AT A TIME with gd_getdata64(field, ff+k, j, 0, 1, ..), formatted with
  *     "%<precision><conv>".  Columns that the tool interpolates (spf below the
- *     maximum, no --skip) are printed as "~".  First line: "status <0|1>" (1 =
+ *     maximum, no --skip) are printed as "~", except on rows that fall exactly
+ *     on a sample of the field (see below).  First line: "status <0|1>" (1 =
  *     a library call failed: the tool must fail too).
  *  utilref check <dir>
  *     "cb <n>"  number of parser-callback invocations of gd_cbopen
@@ -139,8 +140,31 @@ int main(int argc, char **argv)
       for (j = 0; j < (skipping ? 1 : maxspf); j++) {
         for (i = 0; i < nfld; i++) {
           const char *c = argv[9 + i];
-          if (spf[i] != maxspf && !skipping) printf("~");
-          else {
+          if (spf[i] != maxspf && !skipping) {
+            /* an interpolated column.  On a row that falls exactly on a sample of this field (max_spf a multiple of its
+             * spf and j * spf a multiple of max_spf) the interpolation weight is 0 and the tool must show that very
+             * sample, as gd_getdata returns it; judged only when the neighbouring samples the slope is taken from can be
+             * read too (for floating-point columns 0 * (NaN padding) would not be 0).  Other rows: "~" (not judged here) */
+            int done = 0;
+            if (maxspf % spf[i] == 0 && (j * spf[i]) % maxspf == 0 && !zero) {
+              long long p = (long long)j * spf[i] / maxspf;
+              long long abs0 = (ff + k) * (long long)spf[i] + p;
+              int isf = strchr("aAeEfFgG", c[0]) != NULL;
+              double dv[3]; int64_t iv; uint64_t uv; size_t n;
+              if (isf) {
+                if (abs0 >= 1 && gd_getdata64(D, c + 1, 0, abs0 - 1, 0, 3, GD_FLOAT64, dv) == 3 &&
+                    dv[0] == dv[0] && dv[1] == dv[1] && dv[2] == dv[2]) { printf(fmt[i], dv[1]); done = 1; }
+              } else if (c[0] == 'i') {
+                n = gd_getdata64(D, c + 1, 0, abs0, 0, 1, GD_INT64, &iv);
+                if (n == 1 && iv > -(1LL << 52) && iv < (1LL << 52)) { printf(fmt[i], iv); done = 1; }
+              } else {
+                n = gd_getdata64(D, c + 1, 0, abs0, 0, 1, GD_UINT64, &uv);
+                if (n == 1 && uv < (1ULL << 52)) { printf(fmt[i], uv); done = 1; }
+              }
+              gd_error(D);
+            }
+            if (!done) printf("~");
+          } else {
             size_t n;
             if (strchr("aAeEfFgG", c[0])) { double v; n = gd_getdata64(D, c + 1, ff + k, j, 0, 1, GD_FLOAT64, &v); if (!n) { if (zero) printf("%s", zero); else printf(fmt[i], (double)NAN); } else printf(fmt[i], v); }
             else if (c[0] == 'i') { int64_t v; n = gd_getdata64(D, c + 1, ff + k, j, 0, 1, GD_INT64, &v); if (!n) { if (zero) printf("%s", zero); else printf(fmt[i], (int64_t)0); } else printf(fmt[i], v); }
